@@ -7,7 +7,7 @@ SELF = ("param", "self")
 # value-preserving wrappers (element order and values unchanged; C-order flattening only)
 IDENT_FUNCS = {"numpy.ravel", "numpy.asarray", "numpy.atleast_1d", "numpy.array", "numpy.asanyarray", "numpy.ascontiguousarray",
                "numpy.copy", "verde.base.utils.check_data", "verde.base.utils.check_coordinates", "builtins.tuple", "builtins.list",
-               "numpy.squeeze"}
+               "numpy.squeeze", "numpy.reshape"}
 IDENT_METHODS = {"ravel", "copy", "flatten", "reshape", "astype", "to_numpy", "squeeze"}
 IDENT_ATTRS = {"values"}
 
@@ -110,7 +110,7 @@ def unwrap(t, funcs=IDENT_FUNCS, methods=IDENT_METHODS, int_ok=False):
             t = t[1][0][1]
             continue
         if t[0] == "call" and t[1][0] == "glob" and t[1][1] in funcs and t[2]:
-            if "order" in dict(t[3]) or (t[1][1] in ("numpy.ravel",) and len(t[2]) > 1):
+            if "order" in dict(t[3]) or (t[1][1] in ("numpy.ravel",) and len(t[2]) > 1) or (t[1][1] == "numpy.reshape" and len(t[2]) > 2):
                 return t
             t = t[2][0]
             continue
@@ -122,6 +122,39 @@ def unwrap(t, funcs=IDENT_FUNCS, methods=IDENT_METHODS, int_ok=False):
             t = t[1]
         else:
             return t
+
+
+def reshape_of(t):
+    """(inner, shape term) if t is inner.reshape(shape) / np.reshape(inner, shape) in either spelling, else None"""
+    if t[0] != "call":
+        return None
+    if t[1][0] == "attr" and t[1][2] == "reshape" and len(t[2]) >= 1:
+        return t[1][1], (t[2][0] if len(t[2]) == 1 else ("tuple", tuple(t[2])))
+    if t[1] == ("glob", "numpy.reshape") and len(t[2]) >= 2:
+        return t[2][0], t[2][1]
+    return None
+
+
+def minmax_of(t):
+    """('min' | 'max', inner) if t is inner.min() / np.min(inner) / np.amin(inner) (no axis), else None"""
+    if t[0] != "call" or t[3]:
+        return None
+    if t[1][0] == "attr" and t[1][2] in ("min", "max") and not t[2]:
+        return t[1][2], t[1][1]
+    if t[1][0] == "glob" and t[1][1] in ("numpy.min", "numpy.max", "numpy.amin", "numpy.amax") and len(t[2]) == 1:
+        return t[1][1][-3:], t[2][0]
+    return None
+
+
+def ravel_of(t):
+    """(inner, plain) if t is inner.ravel(...) / inner.flatten(...) / np.ravel(inner, ...); plain = no order argument"""
+    if t[0] != "call":
+        return None
+    if t[1][0] == "attr" and t[1][2] in ("ravel", "flatten"):
+        return t[1][1], not t[2] and not t[3]
+    if t[1] == ("glob", "numpy.ravel") and t[2]:
+        return t[2][0], len(t[2]) == 1 and not t[3]
+    return None
 
 
 def tags(conds):
